@@ -386,4 +386,13 @@ theorem source_mrProcessInitBuffer : GeneratedSrc.mrProcessInitBuffer = Expected
 theorem source_msgUniqueKey : GeneratedSrc.msgUniqueKey = ExpectedSrc.msgUniqueKey := by rfl
 theorem source_tyWireMessage : GeneratedSrc.tyWireMessage = ExpectedSrc.tyWireMessage := by rfl
 
+
+/-! ### functions the model's assumptions rest on (construction, wiring, surrounding calls) are unchanged -/
+theorem source_exStartMessaging : GeneratedSrc.exStartMessaging = ExpectedSrc.exStartMessaging := by rfl
+theorem source_mrStart : GeneratedSrc.mrStart = ExpectedSrc.mrStart := by rfl
+theorem source_mrInitialized : GeneratedSrc.mrInitialized = ExpectedSrc.mrInitialized := by rfl
+theorem source_mrSetNotificationFunc : GeneratedSrc.mrSetNotificationFunc = ExpectedSrc.mrSetNotificationFunc := by rfl
+theorem source_newKafkaReceiver : GeneratedSrc.newKafkaReceiver = ExpectedSrc.newKafkaReceiver := by rfl
+theorem source_mrShutdown : GeneratedSrc.mrShutdown = ExpectedSrc.mrShutdown := by rfl
+
 end Firebolt.C10
